@@ -452,6 +452,10 @@ func fillStats(res *simcore.Result, w *World) {
 	if sim.Stats.HitTimeCap {
 		res.Probe("hit-time-cap")
 	}
+	if !w.Finished {
+		// the root task never reached the end of its script (cap, or something it waits for never happens)
+		res.Probe("run-unfinished")
+	}
 	for k, v := range w.Net.Fired {
 		res.FaultN("net-"+k, v)
 	}
